@@ -14,7 +14,7 @@ import (
 )
 
 // Store kinds the engine can write to.
-var StoreKinds = []string{"simple", "indexed", "multiindexed", "multiindexedarray", "concurrent-simple", "concurrent-array", "teeing", "merged"}
+var StoreKinds = []string{"simple", "indexed", "multiindexed", "multiindexedarray", "concurrent-simple", "concurrent-array", "teeing", "merged", "teeing-base", "merged-late", "merged-pre"}
 
 // NewStore creates a fact store of the given kind.
 func NewStore(kind string) factstore.FactStore {
@@ -35,8 +35,40 @@ func NewStore(kind string) factstore.FactStore {
 		return factstore.NewTeeingStore(factstore.NewSimpleInMemoryStore())
 	case "merged":
 		return factstore.NewMergedStore([]factstore.ReadOnlyFactStore{factstore.NewSimpleInMemoryStore()}, factstore.NewMultiIndexedArrayInMemoryStore())
+	case "teeing-base", "merged-late", "merged-pre":
+		return NewLoadedStore(kind, nil)
 	}
 	panic("unknown store kind " + kind)
+}
+
+// NewLoadedStore creates a store of the given kind that holds the given base facts. For the plain kinds they are
+// added through Add. The layered kinds put them where an application would: "teeing-base" into the base store
+// of a TeeingStore, "merged-pre" into the read layer of a MergedStore before the view is constructed,
+// "merged-late" into the read layer after the view was constructed over the still empty layer.
+func NewLoadedStore(kind string, atoms []ast.Atom) factstore.FactStore {
+	load := func(s factstore.FactStore) {
+		for _, a := range atoms {
+			s.Add(a)
+		}
+	}
+	switch kind {
+	case "teeing-base":
+		base := factstore.NewSimpleInMemoryStore()
+		load(base)
+		return factstore.NewTeeingStore(base)
+	case "merged-pre":
+		read := factstore.NewIndexedInMemoryStore()
+		load(read)
+		return factstore.NewMergedStore([]factstore.ReadOnlyFactStore{read}, factstore.NewMultiIndexedArrayInMemoryStore())
+	case "merged-late":
+		read := factstore.NewSimpleInMemoryStore()
+		m := factstore.NewMergedStore([]factstore.ReadOnlyFactStore{read}, factstore.NewMultiIndexedArrayInMemoryStore())
+		load(read)
+		return m
+	}
+	s := NewStore(kind)
+	load(s)
+	return s
 }
 
 // HashKeyed tells whether the store kind keys atoms by Atom.Hash() without an equality check (K08).
@@ -162,10 +194,11 @@ func RunBounded(text string, extra []Fact, storeKind string, bound int, opts ...
 	if out.ParseErr != nil || out.AnalysisErr != nil || out.Panic != "" {
 		return
 	}
-	inner := NewStore(storeKind)
-	for _, f := range extra {
-		inner.Add(f.ToAtom())
+	atoms := make([]ast.Atom, len(extra))
+	for i, f := range extra {
+		atoms[i] = f.ToAtom()
 	}
+	inner := NewLoadedStore(storeKind, atoms)
 	store := inner
 	if bound >= 0 {
 		store = Bounded(inner, bound)
